@@ -1648,6 +1648,9 @@ class PPTableFormat:
 
     def remove_columns(self, columns_names):
         """Remove columns from table."""
+        # other records may become visible without a 'break by' column: actual
+        # widths of the remaining columns are not known any more
+        self.repr_structure = self.repr_structure.clone()
         self.repr_structure.remove_columns(columns_names)
 
     def set_limits(self, limits):
